@@ -97,6 +97,43 @@ def tainted(lf, st, iv):
     return True
 
 
+def owned_completions_rule(run, rule='R15'):
+    fx = run.fx
+    bound = handlers.bound_member_functions(fx)
+    n = 0
+    for usr, lst in sorted(bound.items()):
+        tg = fx.by_usr(usr)
+        if not tg or tg[0].cls != C:
+            continue
+        for dest, fn, node in lst:
+            n += 1
+            run.touch(fn)
+            if node['k'] == 'lambda':
+                caps = node.get('caps', [])
+                cap_ty = lambda c_: fn.ty(c_['t']) if 't' in c_ else (fn.ty(c_['init']['t']) if is_node(c_.get('init')) and 't' in c_['init'] else str(c_.get('ty', '')))
+                ok = any('shared_ptr' in cap_ty(c_) for c_ in caps)
+                what = 'lambda capturing %s' % [c_.get('name') or c_.get('kind') for c_ in caps]
+            else:
+                b = fn.parent(node)
+                obj = b['args'][1] if is_node(b) and len(b.get('args', [])) > 1 else None
+                txt = q.render(fn, obj) if is_node(obj) else ''
+                ok = 'shared_from_this' in txt or (is_node(obj) and 'shared_ptr' in fn.ty(q.strip_casts(obj).get('t', -1)) if is_node(obj) and 't' in q.strip_casts(obj) else 'shared_from_this' in txt)
+                what = 'bound object: %s' % txt
+            run.check(ok, rule, 'completion-owns-connection', '%s bound in %s' % (tg[0].norm.split('::')[-1], fn.norm.split('::')[-1]), fn.loc(node),
+                      '%s is bound as a completion with a raw `this` (%s): the connection object is owned by its outstanding completions only, so once the handler that held the last shared_ptr has run (the client closed its TCP connection) this completion - already posted with success, e.g. a datagram that arrived at the same instant - runs on the freed object' % (tg[0].norm.split('::')[-1], what),
+                      'holds shared_from_this()')
+    # the association ends with its TCP connection: wherever wait_for_eof() closes the client connection it has closed the
+    # relay socket first - otherwise the relay's receive (which now owns the connection) keeps object, port and relay alive
+    we = fx.fn1(C + '::wait_for_eof')
+    run.touch(we)
+    closes = lambda m_: [c for c in we.calls() if (q.callee_name(c) or '').endswith('::close') and is_node(c.get('obj')) and q.render(we, c['obj']).replace('this->', '') == m_]
+    cc_, cu_ = closes('m_client_connection'), closes('m_udp_associate')
+    run.check(bool(cc_) and all(q.any_precedes(we, cu_, c) for c in cc_), rule, 'association-ends-with-tcp', C + '::wait_for_eof', we.loc(),
+              'wait_for_eof() closes the client connection on a path that leaves the UDP relay socket open: the relay\'s pending receive owns the connection object, so the association (and its bound port) outlives the TCP connection it belongs to and keeps relaying',
+              'm_udp_associate.close() precedes every m_client_connection.close()')
+    return n
+
+
 def check(run):
     fx = run.fx
     cx = Ctx(fx)
@@ -448,6 +485,10 @@ def check(run):
                       'composed read of the exact count')
     if nrd < 5:
         run.broke('fewer than 5 reads completing in negotiation steps found (%d)' % nrd)
+    run.clause('a socks_connection lives as long as an operation of it is outstanding: every completion bound to one of its member functions holds shared_from_this(), never the raw `this` (the last owner is a completion; a posted completion bound to `this` runs after the object is gone) (shared with C12)')
+    nown = owned_completions_rule(run)
+    if nown < 20:
+        run.broke('only %d completions bound to socks_connection member functions found (about 40 confirmed by hand)' % nown)
     run.clause('no read of zero bytes: a field whose length comes from the client (number of methods, host-name length minus what was read already) is read only when something is left to read - the simulated socket parks an empty read until the next packet, and the client that sent a complete request waits forever for its reply')
     nz = engines.reads_never_empty(run, [g_ for g_ in fx.repo_functions() if q.top_function(fx, g_).cls == C], rule='R4')
     if nz < 2:
